@@ -120,6 +120,11 @@ def trace_check(data):
         return f"traced program differs from untraced: {got_src!r} vs {want_src!r}"
     if p2.dumps() != before:
         return "tracing changed the serialised bytes"
+    # the same report when standard output is a terminal (here: a pseudo-terminal nobody has sized)
+    if len(data) % 4 == 0 and len(data) < 400:
+        msg = _trace_on_pty(data, want_names, known)
+        if msg:
+            return msg
     # a trace through an interpreter configured the way the CLI configures one for a stack member
     # (own variable numbering and result name) is passive too: what the object itself decompiles
     # to afterwards is what it decompiles to without any trace
@@ -170,6 +175,65 @@ def trace_check(data):
                     f"{want_names[k:]}")
         if src3 != want_src:
             return f"tracing after {k} manual steps returns a different program: {src3!r} vs {want_src!r}"
+    return None
+
+
+def _trace_on_pty(data, want_names, known):
+    import os
+    import sys
+    import threading
+
+    from fickling.fickle import Interpreter, Pickled
+    from fickling.tracing import Trace
+
+    master, slave = os.openpty()
+    chunks = []
+
+    def pump():
+        while True:
+            try:
+                b = os.read(master, 65536)
+            except OSError:
+                break
+            if not b:
+                break
+            chunks.append(b)
+
+    t = threading.Thread(target=pump, daemon=True)
+    t.start()
+    w = os.fdopen(slave, "w", buffering=1)
+    saved = sys.stdout
+    sys.stdout = w
+    err = None
+    try:
+        Trace(Interpreter(Pickled.load(data))).run()
+    except Exception as e:  # noqa: BLE001
+        err = e
+    finally:
+        sys.stdout = saved
+        # (a terminal drops what was not read yet when its last writer goes away: wait for the
+        # reader to have seen everything before closing)
+        import time
+
+        w.write("\n@@verif-end-of-report@@\n")
+        w.flush()
+        t0 = time.monotonic()
+        while b"@@verif-end-of-report@@" not in b"".join(chunks) and time.monotonic() - t0 < 10:
+            time.sleep(0.001)
+        w.close()
+        t.join(5)
+        os.close(master)
+    if b"@@verif-end-of-report@@" not in b"".join(chunks):
+        return None  # the pseudo-terminal did not deliver: inconclusive, not a verdict
+    if err is not None:
+        return f"tracing to a terminal raised {type(err).__name__}: {err} (it does not when standard output is a pipe)"
+    text = b"".join(chunks).decode("utf-8", "replace").replace("\r\n", "\n")
+    lines = [ln for ln in text.split("\n") if ln and not ln[0].isspace()]
+    names = [ln.strip() for ln in lines if ln.strip() in known]
+    if names != want_names:
+        odd = [ln for ln in lines if ln.strip() not in known][:3]
+        return (f"traced to a terminal, the report names the opcodes {names} (other unindented lines: {odd}); the "
+                f"program is {want_names}")
     return None
 
 
